@@ -412,6 +412,24 @@ impl<'a> Gen<'a> {
 
     // ---- functions
 
+    /// a function with a partial parameter that hands its own (partial-typed) parameter on to another such function
+    fn partial_forwarding(&mut self, steps: &mut Vec<String>, cx: &mut Cx) {
+        self.feat("partial_typed_value_forwarded_to_a_partial_parameter");
+        let l = *self.rng.pick(FIELDS);
+        let (narrow, other) = if self.rng.chance(1, 2) { (Ty::Int, Ty::Bin) } else { (Ty::Bin, Ty::Int) };
+        // outer's field type is either the same as inner's (accepted) or wider (must be rejected)
+        let wider = self.rng.chance(1, 2);
+        let outer_ft = if wider { Ty::union(vec![narrow.clone(), other.clone()]) } else { narrow.clone() };
+        let (fi, fo, r) = (self.name(), self.name(), self.name());
+        let use_expr = match narrow { Ty::Int => format!("[${}, 1] __integer_add__", l), _ => format!("${} __binary_length__", l) };
+        steps.push(format!("{} = #({}: {}) {{ {} }}", fi, l, narrow.src(), use_expr));
+        steps.push(format!("{} = #({}: {}) {{ {} {} }}", fo, l, outer_ft.src(), if self.rng.chance(1, 2) { "$" } else { "~" }, fi));
+        let arg_t = if wider && self.rng.chance(1, 2) { other } else { narrow };
+        let arg = self.lit(&arg_t);
+        steps.push(format!("{} = P[{}: {}] {}", r, l, arg, fo));
+        cx.bind(&r, Ty::Int); cx.flow = Some(Ty::ok());
+    }
+
     fn function(&mut self, cx: &Cx, d: usize) -> (String, Ty) {
         let closure_cx = Cx { vars: cx.vars.clone(), flow: None, param: None, in_fn: None };
         match self.rng.below(6) {
@@ -494,6 +512,21 @@ impl<'a> Gen<'a> {
                     continue;
                 }
             }
+            if self.rng.chance(1, 12) {
+                let plain: Vec<(String, Ty)> = cx.vars.iter().filter(|(n, t)| !t.has_fn() && !FIELDS.contains(&n.as_str())).cloned().collect();
+                if !plain.is_empty() {
+                    // a binder inside a tuple field of a branchless block, under the name of an outer variable: the block is a scope,
+                    // so the outer variable is untouched (it is part of the final tuple)
+                    self.feat("binder_in_a_tuple_field_of_a_branchless_block_shadowing_an_outer_name");
+                    let (u, _) = plain[self.rng.below(plain.len())].clone();
+                    let t = self.random_ty(1); let l = self.lit(&t); let w = self.name();
+                    let shape = match self.rng.below(3) { 0 => format!("{} {{ [~ ={}, 1] }}", l, u), 1 => format!("{} {{ [{} ={}, ~] }}", l, l, u), _ => format!("{{ A[x: {} ={}] }}", l, u) };
+                    steps.push(format!("{} = {}", w, shape));
+                    let wt = match shape.starts_with('{') { true => Ty::Tup(Some("A".into()), vec![(Some("x".into()), Ty::ok())]), false => if shape.contains("[~ =") { Ty::Tup(None, vec![(None, Ty::ok()), (None, Ty::Int)]) } else { Ty::Tup(None, vec![(None, Ty::ok()), (None, t.clone())]) } };
+                    cx.bind(&w, wt); cx.flow = Some(Ty::ok());
+                    continue;
+                }
+            }
             if self.rng.chance(1, 14) {
                 // a tuple whose field is union-typed, then an unrelated tuple of the same shape with a narrower field, then the first again
                 self.feat("same_shaped_tuples_with_wider_and_narrower_fields");
@@ -507,6 +540,7 @@ impl<'a> Gen<'a> {
                 cx.bind(&a, Ty::Tup(None, vec![(None, Ty::union(vec![t1.clone(), t2.clone()]))])); cx.bind(&b, Ty::Tup(None, vec![(None, Ty::union(vec![t1, t2]))])); cx.bind(&r, Ty::Int); cx.flow = Some(Ty::ok());
                 continue;
             }
+            if self.allow_partial_params && self.rng.chance(1, 5) { self.partial_forwarding(&mut steps, &mut cx); continue; }
             if self.rng.chance(1, 3) {
                 self.last_fn_recursive = false;
                 let (f, ft) = self.function(&cx, 2);
